@@ -9,6 +9,7 @@
   generator contract on them; "the operation returned `.ok`" therefore quantifies over **all** logs satisfying the contract.
 -/
 import Batchie.Lemmas.PrepHoldout
+import Batchie.Lemmas.PrepOps
 
 namespace Batchie.Props.C11
 open Batchie.Proto Batchie.Screen Batchie.Prep
@@ -135,5 +136,107 @@ theorem C11_holdout_counts_random (kf : Nat → Nat) (choice : List Nat) (s keep
     have := length_filter_range_contains (rowsOf s).length choice (fun _ => true) hnd (fun i hi => List.mem_range.mp (hsub i hi))
     simp only [Bool.and_true] at this
     rw [this, filter_eq_self_of_forall _ _ (by intro a _; rfl), hl]
+
+/-! ### generators and smoothers (through the public `generate_plates` / `smooth_plates` wrappers)
+
+  `Generator` / `Smoother` (`Model/PrepShipped.lean`) enumerate the shipped operations, each constructor carrying the
+  parameters and the choice log; `wrapped` is the model of the public entry point.  `unlabelled r` is the row without its
+  plate label: (sample, treatment names, doses, observation bits, mask). -/
+
+/-- **Generators conserve.** For each shipped generator, every parameter value and every choice log for which
+    `generate_plates` returns: the output rows, ignoring the plate label, are a permutation of the input rows
+    (sample, treatments, doses, observation value and mask all unchanged; nothing invented, altered, duplicated or lost). -/
+theorem C11_generator_conserves (g : Generator) (s out : Screen) (h : g.wrapped s = .ok out) :
+    ((rowsOf out).map unlabelled).Perm ((rowsOf s).map unlabelled) := by
+  rcases wrap_ok' h with ⟨_, rfl⟩ | ⟨u, nu, hu, hnu, hrows⟩
+  · exact List.Perm.refl _
+  · exact assemble_perm (generator_facts g hu unobserved_mask hnu).1 hrows
+
+/-- **Smoothers keep a sub-collection.** For each shipped smoother (the ensemble included): the output rows, ignoring
+    the plate label, are a sub-multiset of the input rows. -/
+theorem C11_smoother_subcollection (sm : Smoother) (s out : Screen) (h : sm.wrapped s = .ok out) :
+    ((rowsOf out).map unlabelled).Subperm ((rowsOf s).map unlabelled) :=
+  (wrap_smoothOk (fun _ _ _ _ _ hu hm h => smoother_facts sm hu hm h) h).1
+
+/-- the smoothers that only drop rows (fixed size, optimal size, per-sample minimum) keep the plate labels too:
+    the output *records* are a sub-multiset of the input records -/
+theorem C11_dropping_smoothers_keep_labels (sm : Smoother) (s out : Screen) (h : sm.wrapped s = .ok out)
+    (hsm : (∃ k ch, sm = .fixedSize k ch) ∨ (∃ ch, sm = .optimalSize ch) ∨ (∃ k, sm = .nPlate k)) :
+    (rowsOf out).Subperm (rowsOf s) := by
+  apply wrap_subperm_rows _ h
+  intro u nu hnu
+  rcases hsm with ⟨k, ch, rfl⟩ | ⟨ch, rfl⟩ | ⟨k, rfl⟩
+  · exact fixedSize_sublist hnu
+  · exact optimal_sublist hnu
+  · exact nPlate_sublist hnu
+
+/-- **Observed part passes through.** For every generator and every smoother: the observed rows of the result are the
+    observed rows of the input -- the same records (plate label, observation, mask = observed) in the same order --
+    and whenever there is something unobserved, the unobserved rows of the result are exactly what the inner
+    operation returned for the screen built from the unobserved rows. -/
+theorem C11_observed_passthrough (op : Generator ⊕ Smoother) (s out : Screen)
+    (h : (match op with | .inl g => g.wrapped s | .inr sm => sm.wrapped s) = .ok out) :
+    observedRows out = observedRows s ∧
+      (unobservedRows s ≠ [] → ∃ u nu, build s.ctrl s.arity (unobservedRows s) = .ok u ∧
+        (match op with | .inl g => g.run u | .inr sm => sm.run u) = .ok nu ∧ unobservedRows out = rowsOf nu) := by
+  cases op with
+  | inl g =>
+    simp only at h ⊢
+    rcases wrap_ok' h with ⟨he, rfl⟩ | ⟨u, nu, hu, hnu, hrows⟩
+    · exact ⟨rfl, fun hne => absurd he hne⟩
+    · obtain ⟨e1, e2⟩ := assemble_observed (generator_facts g hu unobserved_mask hnu).2 hrows
+      exact ⟨e1, fun _ => ⟨u, nu, hu, hnu, e2⟩⟩
+  | inr sm =>
+    simp only at h ⊢
+    rcases wrap_ok' h with ⟨he, rfl⟩ | ⟨u, nu, hu, hnu, hrows⟩
+    · exact ⟨rfl, fun hne => absurd he hne⟩
+    · obtain ⟨e1, e2⟩ := assemble_observed (smoother_facts sm hu unobserved_mask hnu).2 hrows
+      exact ⟨e1, fun _ => ⟨u, nu, hu, hnu, e2⟩⟩
+
+/-- **Merging relabels only.** On the screen the wrapper hands them, both merge smoothers return the same rows in the
+    same order with only the plate label changed, by a renaming function of the old label (so plates only merge). -/
+theorem C11_merge_relabels_only (sm : Smoother) (hsm : (∃ k pops, sm = .mergeMin k pops) ∨ (∃ n, sm = .mergeTopBottom n))
+    (c : Name) (a : Nat) (rows : List Row) (u nu : Screen) (hu : build c a rows = .ok u) (h : sm.run u = .ok nu) :
+    ∃ ρ : Name → Name, rowsOf nu = rows.map (fun r => { r with plate := ρ r.plate }) := by
+  rcases hsm with ⟨k, pops, rfl⟩ | ⟨n, rfl⟩
+  · obtain ⟨ρ, e, _⟩ := (mergeMin_shape hu h).rename; exact ⟨ρ, e⟩
+  · obtain ⟨ρ, e, _⟩ := (mergeTopBottom_shape hu h).rename; exact ⟨ρ, e⟩
+
+/-- consequently the wrapped merge smoothers conserve all experiments (not merely a sub-collection) -/
+theorem C11_merge_conserves (sm : Smoother) (hsm : (∃ k pops, sm = .mergeMin k pops) ∨ (∃ n, sm = .mergeTopBottom n))
+    (s out : Screen) (h : sm.wrapped s = .ok out) :
+    ((rowsOf out).map unlabelled).Perm ((rowsOf s).map unlabelled) := by
+  rcases wrap_ok' h with ⟨_, rfl⟩ | ⟨u, nu, hu, hnu, hrows⟩
+  · exact List.Perm.refl _
+  · obtain ⟨ρ, e⟩ := C11_merge_relabels_only sm hsm _ _ _ u nu hu hnu
+    apply assemble_perm _ hrows
+    rw [e, List.map_map]
+    exact List.Perm.refl _
+
+/-- the permutation generator moreover permutes the plate *labels*: the multiset of labels is conserved -/
+theorem C11_permutation_labels (force perm : List Name) (s out : Screen)
+    (h : (Generator.permutation force perm).wrapped s = .ok out) :
+    ((rowsOf out).map (·.plate)).Perm ((rowsOf s).map (·.plate)) := by
+  rcases wrap_ok' h with ⟨_, rfl⟩ | ⟨u, nu, hu, hnu, hrows⟩
+  · exact List.Perm.refl _
+  · have B := build_ok hu
+    obtain ⟨_, _, h3⟩ := genPermutation_spec hnu (by rw [B.rows_eq]; exact unobserved_mask)
+    rw [B.rows_eq] at h3
+    rw [hrows, List.map_append]
+    refine (List.Perm.append_right _ h3).trans ?_
+    rw [← List.map_append]
+    exact (rows_split_perm s).map _
+
+/-! ### initial plate and combination filter -/
+
+/-- the sparse-cover initial plate generator returns the same experiments in the same order (only plate label and mask change) -/
+theorem C11_initial_plate_conserves (r : Raw) (reveal : Bool) (log : List Nat) (s out : Screen)
+    (hs : mk? r = .ok s) (h : sparseCover reveal log s = .ok out) :
+    (rowsOf out).map Row.exp = (rowsOf s).map Row.exp :=
+  sparseCover_exp h (facts_of_mk hs).tids_len
+
+/-- the combination filter returns a sublist of the input records (plate label, mask, observation untouched) -/
+theorem C11_combo_filter_subcollection (s t : Screen) (h : comboFilter s = .ok t) : (rowsOf t).Sublist (rowsOf s) :=
+  comboFilter_sublist h
 
 end Batchie.Props.C11
